@@ -44,7 +44,7 @@ def run(ctx):
         imp = [s for s in ev.sites.values() if s.callee[0] in ("helpers::scalar_from_be_bytes", "SecretKey<C>::from_be_bytes")]
         ok = len(conv) == 1 and len(imp) == 1 and B.peel(conv[0].args[0]).op == "param"
         if ok:
-            lits = G.path_literals(ev, imp[0].bb, None)
+            lits = G.path_literals(ev, imp[0].bb, None, checks_only=True)
             ok = any(a[1] == "switch" and any(t.op == "call" and B.cname(t) == "TryFrom::try_from" for t in subterms(a[2])) for a, p in lits)
             arr = strip_sites(imp[0].args[0])
             ok = ok and any(t.op == "call" and B.cname(t) == "TryFrom::try_from" for t in subterms(arr))
@@ -55,7 +55,7 @@ def run(ctx):
         fs = [s for s in ev.sites.values() if s.callee[0] == "serde_bare::from_slice"]
         ok = len(fs) == 1
         if ok:
-            lits = G.path_literals(ev, fs[0].bb, P)
+            lits = G.path_literals(ev, fs[0].bb, P, checks_only=True)
             ok = any(atom[0] == "atom" and atom[1] == "cmp" and (atom[2] if pol else R._NEG[atom[2]]) == "Eq" and any(R._is_len_of(x, "value") for x in (atom[3], atom[4])) for atom, pol in lits)
         ctx.ob("E4.len", "ProofCommitment", ok, "ProofCommitment::try_from decodes only under the exact-length edge", where=where(f))
     # scalar helpers reject zero; zero test exact
@@ -124,7 +124,7 @@ def check_point_reader_exact_len(ctx, P, rs, types):
         fb = [s for s in ev.sites.values() if s.callee[0] == "GroupEncoding::from_bytes"]
         ok = len(fb) == 1
         if ok:
-            lits = G.path_literals(ev, fb[0].bb, P)
+            lits = G.path_literals(ev, fb[0].bb, P, checks_only=True)
             eq = False
             for atom, pol in lits:
                 if atom[0] == "atom" and atom[1] == "cmp":
